@@ -1,4 +1,10 @@
 import GB.C17.Proofs
+import GB.C03.Props
+import GB.C04.Props
+import GB.C08.Props
+import GB.C09.Props
+import GB.C13.Props
+import GB.C19.Props
 /-
   C17 — no client input can crash or hang a handler.  PROPERTY THEOREMS.
 
@@ -21,101 +27,115 @@ set_option linter.unusedVariables false
 
 /-! ### no Go partial operation can fault -/
 
-/-- `webbridge.parseMetadataQuery`: `k[len(param)+1 : len(k)-1]` is in bounds for every parameter name and key. -/
+/-- `webbridge.parseMetadataQuery`: the Fault-explicit key slice equals C19's total model — the slice
+    `k[len(param)+1 : len(k)-1]` is in bounds (by `C19_mdquery_slice_in_range`) and yields `GB.C19.mdKeyOf`. -/
+theorem C17_mdkey_is_C19 (param k : Bytes) :
+    mdKeyWith param k = .ok (
+      if !GB.C19.isMetaKey param k then .skip
+      else if GB.C19.isValidMetadataKey (GB.C19.mdKeyOf param k) then .md (GB.C19.lower (GB.C19.mdKeyOf param k))
+      else .drop) := by
+  unfold mdKeyWith
+  cases hm : GB.C19.isMetaKey param k with
+  | false => simp
+  | true =>
+    have hlen := C19_mdquery_slice_in_range param k hm
+    have hs := goSlice_eq k (param.length + 1) (k.length - 1) (by omega)
+    have e1 : ((param.length + 1 : Nat) : Int) = (param.length : Int) + 1 := by omega
+    have e2 : ((k.length - 1 : Nat) : Int) = (k.length : Int) - 1 := by omega
+    rw [e1, e2] at hs
+    have hk : (k.take (k.length - 1)).drop (param.length + 1) = GB.C19.mdKeyOf param k := by
+      unfold GB.C19.mdKeyOf
+      rw [List.drop_take]
+    simp only [Bool.not_true, Bool.false_eq_true, ↓reduceIte, hs, hk, bind, Except.bind]
+    split <;> rfl
+
+/-- … hence no query key and no parameter name can make `parseMetadataQuery` panic. -/
 theorem C17_mdkey_no_panic (param k : Bytes) : ∃ r, mdKey param k = .ok r := by
   unfold mdKey
-  generalize (if param.isEmpty then defaultMetadataParam else param) = p
-  unfold mdKeyWith
-  split
-  · exact ⟨_, rfl⟩
-  · rename_i h
-    simp only [Bool.not_eq_true', Bool.and_eq_false_iff, not_or, Bool.not_eq_false] at h
-    have hlen := prefix_suffix_length k p h.1 h.2
-    obtain ⟨mk, hmk⟩ := goSlice_ok k ((p.length : Int) + 1) ((k.length : Int) - 1) (by omega)
-    rw [hmk]
-    simp only [bind, Except.bind]
-    split <;> exact ⟨_, rfl⟩
+  exact ⟨_, C17_mdkey_is_C19 _ k⟩
 
-/-- gRPC-WebSocket `OnMessage`: `data[0]` and `data[6:]` are in bounds for every frame in every state. -/
-theorem C17_gws_onmessage_no_panic (closed : Bool) (data : Bytes) : ∃ r, gwsOnMessage closed data = .ok r := by
-  unfold gwsOnMessage
-  split
-  · exact ⟨_, rfl⟩
-  · by_cases h0 : data.length > 0
-    · obtain ⟨b, hb⟩ := goIndex_ok data 0 (by omega) (by omega)
-      by_cases h6 : data.length > 6
-      · obtain ⟨d, hd⟩ := goSlice_ok data 6 data.length (by omega)
-        simp [h0, h6, hb, goSliceFrom, hd, bind, Except.bind, pure, Except.pure]
-      · simp [h0, h6, hb, bind, Except.bind, pure, Except.pure]
-    · have : data.length = 0 := by omega
-      simp [this, bind, Except.bind, pure, Except.pure]
+/-- gRPC-WebSocket `OnMessage` (after the metadata frame): the Fault-explicit model — `data[0]`, `data[6:]` —
+    equals C08's total model for every frame in every state; in particular it never faults. -/
+theorem C17_gws_onmessage_is_C08 (mdOk : Bytes → Bool) (st : GB.C08.WS) (data : Bytes) (hmd : st.receivedMD = true) :
+    gwsOnMessage st data = .ok (GB.C08.onMessage mdOk st data) := by
+  unfold gwsOnMessage GB.C08.onMessage
+  cases hc : st.closed with
+  | true => simp
+  | false =>
+    simp only [Bool.false_eq_true, ↓reduceIte, hmd, Bool.not_true]
+    cases data with
+    | nil => simp [GB.C08.wsOff, bind, Except.bind, pure, Except.pure]
+    | cons b t =>
+      have hb : goIndex (b :: t) 0 = .ok b := by simp [goIndex]
+      by_cases h6 : 6 ≤ (b :: t).length
+      · have hs := goSlice_eq (b :: t) 6 (b :: t).length ⟨h6, Nat.le_refl _⟩
+        have hs' : goSliceFrom (b :: t) 6 = .ok ((b :: t).drop 6) := by
+          unfold goSliceFrom; simpa using hs
+        simp only [List.length_cons, gt_iff_lt, Nat.zero_lt_succ, ↓reduceIte, hb, bind, Except.bind, pure, Except.pure,
+          ge_iff_le, GB.C08.wsOff]
+        have h6' : 6 ≤ t.length + 1 := by simpa using h6
+        simp only [h6', ↓reduceIte, hs']
+      · have h6' : ¬ 6 ≤ t.length + 1 := by simpa using h6
+        simp only [List.length_cons, gt_iff_lt, Nat.zero_lt_succ, ↓reduceIte, hb, bind, Except.bind, pure, Except.pure,
+          ge_iff_le, GB.C08.wsOff, h6', Option.isNone_none, Bool.true_and]
+        split <;> rfl
 
-/-- What `OnMessage` delivers: exactly `data[6:]` when the frame is longer than 6 bytes, nothing otherwise;
-    the stream is closed iff the flow-control byte is 1. -/
-theorem C17_gws_onmessage_spec (data : Bytes) (o : GwsOut) (h : gwsOnMessage false data = .ok o) :
-    o.closed = (data.head? == some 1) ∧ o.closeEvents = o.closed ∧
-    (o.delivered.isSome ↔ data.length > 6) ∧ (∀ d e, o.delivered = some (d, e) → d = data.drop 6 ∧ e = false) := by
-  unfold gwsOnMessage at h
-  simp only [Bool.false_eq_true, ↓reduceIte] at h
-  by_cases h0 : data.length > 0
-  · obtain ⟨b, hb⟩ := goIndex_ok data 0 (by omega) (by omega)
-    have hb' : data.head? = some b := by
-      unfold goIndex at hb
-      cases data with
-      | nil => simp at h0
-      | cons x xs => simp at hb; simp [hb]
-    by_cases h6 : data.length > 6
-    · obtain ⟨d, hd⟩ := goSlice_ok data 6 data.length (by omega)
-      have hd' : d = data.drop 6 := by
-        unfold goSlice at hd
-        split at hd
-        · injection hd with hd; rw [← hd]; simp
-        · cases hd
-      simp [h0, h6, hb, goSliceFrom, hd, bind, Except.bind, pure, Except.pure] at h
-      subst h
-      simp [hb', hd', h6]
-    · simp [h0, h6, hb, bind, Except.bind, pure, Except.pure] at h
-      subst h
-      simp [hb', h6]
-  · have hz : data = [] := by cases data with | nil => rfl | cons _ _ => simp at h0
-    subst hz
-    simp [bind, Except.bind, pure, Except.pure] at h
-    subst h
-    simp
+theorem C17_gws_onmessage_no_panic (st : GB.C08.WS) (data : Bytes) (hmd : st.receivedMD = true) :
+    ∃ r, gwsOnMessage st data = .ok r :=
+  ⟨_, C17_gws_onmessage_is_C08 (fun _ => true) st data hmd⟩
 
 /-- A whole gRPC-WebSocket session never closes `events` twice, whatever the client sends in whatever order. -/
-theorem C17_gws_session_no_double_close (frames : List Bytes) : ∃ r, gwsSession false false frames = .ok r := by
-  suffices h : ∀ (frames : List Bytes) (closed evClosed : Bool), (evClosed = true → closed = true) →
-      ∃ r, gwsSession closed evClosed frames = .ok r from h frames false false (by simp)
+theorem C17_gws_session_no_double_close (frames : List Bytes) :
+    ∃ r, gwsSession { receivedMD := true, closed := false } false frames = .ok r := by
+  suffices h : ∀ (frames : List Bytes) (st : GB.C08.WS) (evClosed : Bool), st.receivedMD = true →
+      (evClosed = true → st.closed = true) → ∃ r, gwsSession st evClosed frames = .ok r from h frames _ false rfl (by simp)
   intro frames
   induction frames with
-  | nil => intro c e _; exact ⟨_, rfl⟩
+  | nil => intro st e _ _; exact ⟨_, rfl⟩
   | cons d rest ih =>
-    intro closed evClosed inv
+    intro st evClosed hmd inv
     unfold gwsSession
-    obtain ⟨o, ho⟩ := C17_gws_onmessage_no_panic closed d
-    rw [ho]
+    rw [C17_gws_onmessage_is_C08 (fun _ => true) st d hmd]
     simp only [bind, Except.bind]
-    cases hc : closed with
+    -- facts about C08's step: a closed stream ignores the frame; `eof` is emitted iff the stream closes now
+    have hstep : (GB.C08.onMessage (fun _ => true) st d).1.receivedMD = true ∧
+        (st.closed = true → GB.C08.onMessage (fun _ => true) st d = (st, [])) ∧
+        ((GB.C08.onMessage (fun _ => true) st d).2.contains GB.C08.WSEv.eof = true →
+          (GB.C08.onMessage (fun _ => true) st d).1.closed = true) := by
+      unfold GB.C08.onMessage
+      cases hc : st.closed with
+      | true => simp [hmd]
+      | false =>
+        simp only [Bool.false_eq_true, ↓reduceIte, hmd, Bool.not_true, false_implies, true_and]
+        intro hcont
+        cases d with
+        | nil => simp [GB.C08.wsOff] at hcont
+        | cons b t =>
+          simp only at hcont ⊢
+          cases hb : (b == 1) with
+          | true => rfl
+          | false =>
+            exfalso
+            simp only [hb, Bool.false_eq_true, ↓reduceIte, List.append_nil] at hcont
+            repeat' (split at hcont)
+            all_goals simp at hcont
+    obtain ⟨h1, h2, h3⟩ := hstep
+    cases hc : st.closed with
     | true =>
-      -- a closed stream ignores the frame: nothing is closed again
-      have : o = { closed := true, delivered := none, closeEvents := false } := by
-        rw [hc] at ho; unfold gwsOnMessage at ho; simpa using ho.symm
-      subst this
-      simp only [Bool.false_eq_true, ↓reduceIte]
-      exact ih true evClosed (by simp)
+      rw [h2 hc]
+      simp only [List.contains_nil, Bool.false_eq_true, ↓reduceIte]
+      exact ih st evClosed hmd inv
     | false =>
       have hev : evClosed = false := by
         cases evClosed with
         | false => rfl
         | true => have := inv rfl; rw [hc] at this; cases this
-      obtain ⟨_, h2, _, _⟩ := C17_gws_onmessage_spec d o (by rw [hc] at ho; exact ho)
       subst hev
-      by_cases hce : o.closeEvents = true
+      by_cases hce : (GB.C08.onMessage (fun _ => true) st d).2.contains GB.C08.WSEv.eof = true
       · simp only [hce, ↓reduceIte, Bool.false_eq_true]
-        exact ih o.closed true (by intro _; rw [← h2]; exact hce)
+        exact ih _ true h1 (fun _ => h3 hce)
       · simp only [hce, Bool.false_eq_true, ↓reduceIte]
-        exact ih o.closed false (by simp)
+        exact ih _ false h1 (by simp)
 
 /-- The transcoded WebSocket `OnMessage` closes `events` at most once for every binding shape and any number of frames. -/
 theorem C17_ws_session_no_double_close (cs body : Bool) (n : Nat) : ∃ r, wsSession cs body false false n = .ok r := by
@@ -131,32 +151,61 @@ theorem C17_ws_session_no_double_close (cs body : Bool) (n : Nat) : ∃ r, wsSes
       | (exfalso; simp at inv; done)
       | exact ih _ _ (by simp)
 
-/-- gRPC-Web `recv`: the header and body slices are in bounds for every request body. -/
-theorem C17_gwrecv_no_panic (body : Bytes) : ∃ r, gwRecv body = .ok r := by
-  unfold gwRecv
-  split
-  · exact ⟨_, rfl⟩
-  · split
-    · exact ⟨_, rfl⟩
-    · rename_i h0 h5
-      have h5' : 5 ≤ body.length := by omega
-      obtain ⟨hd, hhd⟩ := goSlice_ok body 0 5 (by omega)
-      obtain ⟨rest, hrest⟩ := goSlice_ok body 5 body.length (by omega)
-      have hhdlen : hd.length = 5 := by
-        unfold goSlice at hhd
-        split at hhd
-        · injection hhd with e; rw [← e]; simp; omega
-        · cases hhd
-      obtain ⟨lb, hlb⟩ := goSlice_ok hd 1 5 (by omega)
-      simp only [goSliceTo, goSliceFrom, hhd, hrest, hlb, bind, Except.bind]
-      split
-      · exact ⟨_, rfl⟩
+/-- gRPC-Web `recv`: the Fault-explicit model — `header[1:5]`, the four length bytes, the body slices — equals
+    C08's total model `GB.C08.recv` for every request body; in particular it never faults. -/
+theorem C17_gwrecv_is_C08 (body : Bytes) : gwRecv body = .ok (GB.C08.recv body) := by
+  unfold gwRecv GB.C08.recv GB.C08.recvL
+  match body with
+  | [] => rfl
+  | [_] => rfl
+  | [_, _] => rfl
+  | [_, _, _] => rfl
+  | [_, _, _, _] => rfl
+  | f :: a :: b :: c :: d :: rest =>
+    have hh : goSliceTo (f :: a :: b :: c :: d :: rest) 5 = .ok [f, a, b, c, d] := by
+      have := goSlice_eq (f :: a :: b :: c :: d :: rest) 0 5 (by simp)
+      unfold goSliceTo; simpa using this
+    have hr : goSliceFrom (f :: a :: b :: c :: d :: rest) 5 = .ok rest := by
+      have := goSlice_eq (f :: a :: b :: c :: d :: rest) 5 (f :: a :: b :: c :: d :: rest).length (by simp)
+      unfold goSliceFrom; simpa using this
+    have hl : goSlice [f, a, b, c, d] 1 5 = .ok [a, b, c, d] := by
+      have := goSlice_eq [f, a, b, c, d] 1 5 (by simp)
+      simpa using this
+    have i0 : goIndex [a, b, c, d] 0 = .ok a := by simp [goIndex]
+    have i1 : goIndex [a, b, c, d] 1 = .ok b := by simp [goIndex]
+    have i2 : goIndex [a, b, c, d] 2 = .ok c := by simp [goIndex]
+    have i3 : goIndex [a, b, c, d] 3 = .ok d := by simp [goIndex]
+    have hlen0 : ((f :: a :: b :: c :: d :: rest).length == 0) = false := by simp
+    have hlen5 : ¬ (f :: a :: b :: c :: d :: rest).length < 5 := by simp
+    simp only [hlen0, Bool.false_eq_true, ↓reduceIte, hlen5, hh, hr, hl, i0, i1, i2, i3, bind, Except.bind]
+    split
+    · rfl
+    · split
+      · rfl
       · split
-        · exact ⟨_, rfl⟩
-        · rename_i hn
-          obtain ⟨data, hdata⟩ := goSlice_ok rest 0 (min (be32 lb) maxRecv : Nat) (by omega)
-          rw [hdata]
-          exact ⟨_, rfl⟩
+        · rfl
+        · rename_i h1 h2 h3
+          have hle : GB.C08.be32 a b c d ≤ rest.length := by omega
+          have hd := goSlice_eq rest 0 (GB.C08.be32 a b c d) ⟨Nat.zero_le _, hle⟩
+          have hd' : goSliceTo rest (GB.C08.be32 a b c d : Nat) = .ok (rest.take (GB.C08.be32 a b c d)) := by
+            unfold goSliceTo; simpa using hd
+          have hrr := goSlice_eq rest (GB.C08.be32 a b c d) rest.length ⟨hle, Nat.le_refl _⟩
+          have hrr' : goSliceFrom rest (GB.C08.be32 a b c d : Nat) = .ok (rest.drop (GB.C08.be32 a b c d)) := by
+            unfold goSliceFrom; simpa using hrr
+          simp only [hd', hrr']
+
+theorem C17_gwrecv_no_panic (body : Bytes) : ∃ r, gwRecv body = .ok r := ⟨_, C17_gwrecv_is_C08 body⟩
+
+/-- `verbIdx > 0` only arises from the suffix branch, where `verbIdx = len(last) - len(verb) - 1 < len(last)`. -/
+theorem C17_verb_index_range (last verb : Bytes) :
+    verbIndex last verb = -1 ∨ (0 ≤ verbIndex last verb ∧ verbIndex last verb + 1 ≤ last.length) := by
+  unfold verbIndex
+  split
+  · rename_i hsuf
+    have hs := suffix_length last (58 :: verb) hsuf.2
+    simp only [List.length_cons] at hs
+    right; omega
+  · left; rfl
 
 /-- `PatternRouter.RouteHTTP`: `path[1:]`, `pathComponents[len-1]`, `last[:verbIdx]`, `last[verbIdx+1:]` and the
     assignment to `matchComponents[len-1]` are in bounds for every path and every pattern verb. -/
@@ -171,30 +220,58 @@ theorem C17_route_slices_no_panic (path verb : Bytes) : ∃ r, routeSlices path 
     obtain ⟨p1, hp1⟩ := goSlice_ok path 1 path.length (by omega)
     simp only [goSliceFrom, hp1, bind, Except.bind]
     have hpos := splitSlash_length_pos p1
-    obtain ⟨last, hlast⟩ := goIndexL_ok (splitSlash p1) (((splitSlash p1).length : Int) - 1) (by omega) (by omega)
+    obtain ⟨last, hlast⟩ := goIndexL_ok (GB.C03.splitSlash p1) (((GB.C03.splitSlash p1).length : Int) - 1) (by omega) (by omega)
     rw [hlast]
     simp only
-    -- verbIdx > 0 only arises from the suffix branch, where verbIdx = len(last) - len(verb) - 1
-    have hvi : verbIndex last verb > 0 → verbIndex last verb + 1 ≤ last.length := by
-      unfold verbIndex
-      split
-      · rename_i hsuf
-        have hs := suffix_length last (58 :: verb) hsuf.2
-        simp only [List.length_cons] at hs
-        intro _; omega
-      · intro h; omega
+    have hvi := C17_verb_index_range last verb
     generalize verbIndex last verb = vi at hvi
     unfold routeSlicesAt
     split
     · exact ⟨_, rfl⟩
     · split
       · rename_i hgt
-        have := hvi hgt
+        have : vi + 1 ≤ last.length := by omega
         obtain ⟨a, ha⟩ := goSlice_ok last 0 vi (by omega)
         obtain ⟨v, hv⟩ := goSlice_ok last (vi + 1) last.length (by omega)
         simp only [goSliceTo, goSliceFrom, ha, hv, hlast, bind, Except.bind]
         exact ⟨_, rfl⟩
       · exact ⟨_, rfl⟩
+
+/-- The Fault-explicit per-route step computes exactly the arguments C03's total `stepRoute` hands to the
+    matcher (and skips the route exactly when C03 does): the two models of the `RouteHTTP` closure agree. -/
+theorem C17_route_step_is_C03 {ι : Type} (comps : List Bytes) (last : Bytes) (r : GB.C03.Route ι) (hne : comps ≠ []) :
+    ∃ s, routeSlicesAt comps last (verbIndex last r.verb) = .ok s ∧ s ≠ .invalid ∧
+      GB.C03.stepRoute comps last r =
+        (match s with | .comps mc v => r.run mc v | _ => .notMatch) := by
+  have hpos : 1 ≤ comps.length := by
+    cases comps with | nil => exact absurd rfl hne | cons _ _ => simp
+  by_cases hsuf : r.verb ≠ [] ∧ GB.C03.hasSuffix last (58 :: r.verb) = true
+  · have hs := suffix_length last (58 :: r.verb) hsuf.2
+    simp only [List.length_cons] at hs
+    have hvi : verbIndex last r.verb = ((last.length - r.verb.length - 1 : Nat) : Int) := by
+      unfold verbIndex; rw [if_pos hsuf]; omega
+    rw [hvi]
+    unfold GB.C03.stepRoute
+    rw [if_pos hsuf]
+    generalize hn : last.length - r.verb.length - 1 = n
+    have hnle : n + 1 ≤ last.length := by omega
+    unfold routeSlicesAt
+    by_cases h0 : n = 0
+    · subst h0
+      exact ⟨.skipRoute, by simp, by simp, by simp⟩
+    · have hz : (((n : Nat) : Int) == 0) = false := by simp; omega
+      have hgt : ((n : Nat) : Int) > 0 := by omega
+      have e2 : ((n : Nat) : Int) + 1 = ((n + 1 : Nat) : Int) := by omega
+      obtain ⟨x, hx⟩ := goIndexL_ok comps ((comps.length : Int) - 1) (by omega) (by omega)
+      rw [hz]
+      simp only [Bool.false_eq_true, ↓reduceIte, hgt, e2, goSliceTo_eq last n (by omega),
+        goSliceFrom_eq last (n + 1) hnle, hx, bind, Except.bind, h0]
+      exact ⟨_, rfl, by simp, rfl⟩
+  · have hvi : verbIndex last r.verb = -1 := by unfold verbIndex; rw [if_neg hsuf]
+    rw [hvi]
+    unfold GB.C03.stepRoute routeSlicesAt
+    rw [if_neg hsuf]
+    exact ⟨.comps comps [], by simp, by simp, rfl⟩
 
 /-- `routing.parseRPCName`: `rpcName[0]` and `rpcName[1:]` are in bounds for every name. -/
 theorem C17_parse_rpc_name_no_panic (name : Bytes) : ∃ r, parseRPCName name = .ok r := by
@@ -332,23 +409,27 @@ theorem C17_http_status_range (c : Code) :
 theorem C17_websocket_error_code_valid (e : WsErr) : validCloseCode (websocketError e).1 = true := by
   cases e <;> rfl
 
-/-- `truncateCloseReason`: `reason[cut]` and `reason[:cut]` are in bounds, the result fits a close frame
-    (≤ 123 bytes next to the 2-byte code) and is a prefix of the reason.  (That the cut falls on a character
-    boundary is `utf8.RuneStart`'s contract; the differential op and the fuzz check the result is valid UTF-8.) -/
-theorem C17_close_reason_fits (reason : Bytes) :
-    ∃ r, truncateCloseReason reason = .ok r ∧ r.length ≤ 123 ∧ r <+: reason := by
-  unfold truncateCloseReason maxCloseReasonLen
+/-- `closeReason`: the Fault-explicit model — `reason[n]` in the loop, `reason[:n]` — equals C13's total model
+    `GB.C13.closeReason` for every reason; in particular it never faults. -/
+theorem C17_close_reason_is_C13 (reason : Bytes) : truncateCloseReason reason = .ok (GB.C13.closeReason reason) := by
+  unfold truncateCloseReason GB.C13.closeReason
   split
-  · rename_i h; exact ⟨reason, rfl, h, List.prefix_refl _⟩
+  · rfl
   · rename_i h
-    obtain ⟨cut, hcut, hle⟩ := backToRuneStart_ok reason 123 (by omega)
-    rw [hcut]
-    simp only [bind, Except.bind, goSliceTo, goSlice]
-    have hc : (0 : Int) ≤ 0 ∧ (0 : Int) ≤ (cut : Int) ∧ (cut : Int) ≤ reason.length := by omega
-    rw [if_pos hc]
-    refine ⟨_, rfl, ?_, ?_⟩
-    · simp; omega
-    · simp; exact List.take_prefix _ _
+    have hlt : GB.C13.maxCloseReasonLen < reason.length := by omega
+    rw [backToRuneStart_eq reason _ hlt]
+    simp only [bind, Except.bind]
+    have hle : GB.C13.truncPoint reason GB.C13.maxCloseReasonLen ≤ reason.length := by
+      have := GB.C13.truncPoint_le reason GB.C13.maxCloseReasonLen; omega
+    have := goSlice_eq reason 0 (GB.C13.truncPoint reason GB.C13.maxCloseReasonLen) ⟨Nat.zero_le _, hle⟩
+    unfold goSliceTo
+    simpa using this
+
+/-- … so the truncated reason fits a close frame (≤ 123 bytes next to the 2-byte code), is a prefix of the reason
+    and — C13's result — is never cut inside a UTF-8 sequence. -/
+theorem C17_close_reason_fits (reason : Bytes) :
+    ∃ r, truncateCloseReason reason = .ok r ∧ r.length ≤ 123 ∧ r <+: reason :=
+  ⟨_, C17_close_reason_is_C13 reason, GB.C13.closeReason_length reason, GB.C13.closeReason_prefix reason⟩
 
 /-! ### what an accepted case means (the judgement is the property) -/
 
@@ -496,6 +577,79 @@ theorem C17_accepted_ws (c : WsCase) (h : wsViolations c = []) :
       · simp [hcond] at h5
     exact ⟨e1, e2, e3, e4, e5, e6⟩
 
+/-! ### re-exports: the no-panic / totality / 4xx results of the decode cores owned by other slices
+
+  Restated under `C17_*` and proved BY the other slices' theorems (nothing is re-proved here): together with
+  the theorems above they are the "assembled" no-panic statement of section 5.17 — every modelled core on a
+  client-controlled path is fault-free for all inputs.  (C14 name parsing is not merged yet; C12's decoder is a
+  total function whose index expressions are `C17_decode_timeout_no_panic` above.) -/
+
+/-- C09: no JSON value offered for any scalar-kinded field (singular, repeated, map) makes the field decoder
+    panic — in particular an unknown enum name under DiscardUnknown (D9c). -/
+theorem C17_json_decode_no_panic (ops : GB.C09.FloatOps) (o : GB.C09.Opts) (c : GB.C09.Card) (k : GB.C09.Kind) (j : GB.C09.J) :
+    GB.C09.decode ops o c k j ≠ .panic :=
+  C09_no_panic ops o c k j
+
+/-- C09: the field encoder never panics, for any value, kind and options. -/
+theorem C17_json_encode_no_panic (ops : GB.C09.FloatOps) (o : GB.C09.Opts) (k : GB.C09.Kind) (f : GB.C09.Field) :
+    GB.C09.encode ops o k f ≠ .panic :=
+  C09_encode_no_panic ops o k f
+
+/-- C03: the path-template matcher never faults, for every template, every component list; it reports a
+    malformed escape only when a component really has one (⇒ InvalidArgument, a 4xx). -/
+theorem C17_matcher_no_fault (t : GB.C03.Tmpl) (comps : List Bytes) :
+    GB.C03.matchTmpl t comps t.verb ≠ .fault ∧
+    (GB.C03.matchTmpl t comps t.verb = .malformed → ∃ c ∈ comps, ¬ GB.C03.WellEscaped c) :=
+  ⟨(C03_matcher_other t comps t.verb).2.1, (C03_matcher_other t comps t.verb).2.2⟩
+
+/-- C19: no key shape can take the slice `k[len(param)+1 : len(k)-1]` of `parseMetadataQuery` out of range. -/
+theorem C17_mdquery_slice_in_range (param k : Bytes) (h : GB.C19.isMetaKey param k = true) :
+    param.length + 1 ≤ k.length - 1 :=
+  C19_mdquery_slice_in_range param k h
+
+/-- C08: whatever gRPC-Web `recv` hands out as a message is one complete frame within the limit, for EVERY byte
+    stream (malformed ones included) — no partial read, no desynchronisation. -/
+theorem C17_grpcweb_recv_never_truncates (s m r : Bytes) (h : GB.C08.recv s = (GB.C08.RecvRes.msg m, r)) :
+    ∃ f a b c d, s = f :: a :: b :: c :: d :: (m ++ r) ∧ GB.C08.be32 a b c d = m.length ∧ m.length ≤ GB.C08.maxMsg :=
+  C08_recv_never_truncates s m r h
+
+/-- C08: every gRPC-WebSocket frame after the metadata is classified — ≥ 6 bytes delivers `data[6:]`, an empty frame
+    and a 2..5-byte frame deliver a framing error (InvalidArgument), never silence and never a fault. -/
+theorem C17_grpcws_frame_cases (mdOk : Bytes → Bool) (data : Bytes) :
+    let evs := (GB.C08.onMessage mdOk { receivedMD := true, closed := false } data).2
+    (6 ≤ data.length → evs.head? = some (GB.C08.WSEv.msg (data.drop 6))) ∧
+    (data.length = 0 → evs = [GB.C08.WSEv.err GB.C08.RecvErr.flow]) ∧
+    (2 ≤ data.length → data.length ≤ 5 → evs.head? = some (GB.C08.WSEv.err GB.C08.RecvErr.wsHeader)) :=
+  C08_ws_onMessage_cases mdOk data
+
+/-- C04 (the 4xx clause inside the population core): every error of the request transcoder is InvalidArgument,
+    except Internal for a body path of the BINDING that is not a field path (description error), the wrapped EOF
+    of a finished stream, or a malformed model input. -/
+theorem C17_transcode_errors (sch : GB.C04.Schema) (orc : GB.C04.Oracle) (root : GB.C04.MsgDesc) (bd : GB.C04.Binding)
+    (dec : GB.C04.Dec) (rq : GB.C04.Request) (e : GB.C04.Err)
+    (h : GB.C04.transcode sch orc root bd dec rq = .error e) :
+    e = .invalidArgument ∨ (e = .internal ∧ GB.C04.BadBinding sch root bd) ∨ (e = .eof ∧ dec = .eof) ∨ e = .fault :=
+  C04_errors sch orc root bd dec rq e h
+
+/-- C04: a path or query parameter value that does not parse can only yield InvalidArgument, never Internal. -/
+theorem C17_param_errors_invalid_argument (sch : GB.C04.Schema) (orc : GB.C04.Oracle) (root : GB.C04.MsgDesc) (m : GB.C04.Msg)
+    (fieldPath values : List Bytes) (e : GB.C04.Err)
+    (h : GB.C04.populateFieldValueFromPath sch orc root m fieldPath values = .error e) :
+    e = .invalidArgument ∨ e = .fault :=
+  C04_param_errors_invalidArgument sch orc root m fieldPath values e h
+
+/-- C13: the hand-off between the WebSocket read loop and `Recv` is safe for every interleaving of client
+    writes, read loop, `Recv`, cancellation and close: what reaches the transcoder is a prefix of what the
+    property allows (nothing duplicated, reordered or invented). -/
+theorem C17_ws_handoff_safe (cfg : GB.C13.Cfg) (s : GB.C13.St) (h : GB.LTS.Reachable (GB.C13.step cfg) GB.C13.init s) :
+    s.delivered <+: GB.C13.expectedDelivered cfg s.sent :=
+  C13_ws_in_safe cfg s h
+
+/-- C13: a shortened close reason is never cut inside a UTF-8 sequence (D24). -/
+theorem C17_close_reason_rune_boundary (r : Bytes) (h : 123 < r.length) :
+    ∃ n, GB.C13.closeReason r = r.take n ∧ n ≤ 123 ∧ (n = 0 ∨ ∀ b, r[n]? = some b → GB.C13.runeStart b = true) :=
+  C13_close_reason_rune_boundary r h
+
 /-! ### non-vacuity: the hypotheses are satisfiable and the partial operations are real -/
 
 -- `_metadata[x-a]` forwards key `x-a`; `_metadata[]` forwards the empty key; `_metadata[` is not a metadata key
@@ -507,14 +661,22 @@ example : goSlice [91] 2 0 = .error .sliceBounds := by decide
 example : goIndex [] 0 = .error .indexOutOfRange := by decide
 example : goSlice [] 0 (-1) = .error .sliceBounds := by decide
 -- closing twice is a fault of the session model when the guard is removed (state: not closed, events closed)
-example : gwsSession false true [[1]] = .error .closeOfClosedChannel := by decide
-example : gwsSession false false [[1], [1], [1, 0, 0, 0, 0, 0, 7]] = .ok (true, true) := by decide
--- a 7-byte frame delivers its last byte; a 6-byte frame delivers nothing (the empty message is dropped)
-example : gwsOnMessage false [0, 0, 0, 0, 0, 1, 9] = .ok { closed := false, delivered := some ([9], false), closeEvents := false } := by decide
-example : gwsOnMessage false [0, 0, 0, 0, 0, 0] = .ok { closed := false, delivered := none, closeEvents := false } := by decide
+example : gwsSession { receivedMD := true, closed := false } true [[1]] = .error .closeOfClosedChannel := by decide
+example : gwsSession { receivedMD := true, closed := false } false [[1], [1], [1, 0, 0, 0, 0, 0, 7]] =
+    .ok ({ receivedMD := true, closed := true }, true) := by decide
+-- a 7-byte frame delivers its last byte; a 6-byte frame delivers the empty message (fix D8); 3 bytes: framing error
+example : gwsOnMessage { receivedMD := true, closed := false } [0, 0, 0, 0, 0, 1, 9] =
+    .ok ({ receivedMD := true, closed := false }, [.msg [9]]) := by decide
+example : gwsOnMessage { receivedMD := true, closed := false } [0, 0, 0, 0, 0, 0] =
+    .ok ({ receivedMD := true, closed := false }, [.msg []]) := by decide
+example : gwsOnMessage { receivedMD := true, closed := false } [1, 0, 0] =
+    .ok ({ receivedMD := true, closed := true }, [.err .wsHeader, .eof]) := by decide
+-- a declared length above the limit is rejected (fix D7), a short body is Unavailable
+example : gwRecv [0, 0, 64, 0, 1, 9] = .ok (.err .oversize, [9]) := by decide
+example : gwRecv [0, 0, 0, 0, 2, 9] = .ok (.err .body, []) := by decide
 -- "/a/b:fetch" with pattern verb "fetch" and a last segment that is only the verb
 example : routeSlices [47, 97, 47, 98, 58, 118] [118] = .ok (.comps [[97], [98]] [118]) := by decide
-example : routeSlices [47, 97, 47, 58, 118] [118] = .ok .notFound := by decide
+example : routeSlices [47, 97, 47, 58, 118] [118] = .ok .skipRoute := by decide
 example : routeSlices [97] [118] = .ok .invalid := by decide
 -- "€€" cut after 4 bytes would split the second character: the cut moves back to its start
 example : backToRuneStart [226, 130, 172, 226, 130, 172] 4 = .ok 3 := by decide
